@@ -3,7 +3,7 @@ PROP = dict(
     module="M3d.Props.C05",
     corr=dict(quick=150, thorough=1000),
     gen=["Kernels"],
-    tie_modules=["M3d.Lemmas.KernelsTieTransform", "M3d.Lemmas.KernelsTieSqueeze"],
+    tie_modules=["M3d.Lemmas.KernelsTieTransform", "M3d.Lemmas.KernelsTieSqueeze", "M3d.Lemmas.KernelsTieSqueezeApply"],
     corr_theorems=(
         "faithful kinds (apply bounds invdesc appdist solidr inner outer nilcb sphin cbounds vmball mat* 'pinch apply/invdesc') compare the "
         "model of each Go method with the method; property kinds print the right-hand sides of M3d.C05.inverse_apply/apply_inverse "
@@ -30,7 +30,21 @@ PROP = dict(
         "its current value and changes no existing object), history_edits_are_local, history_value_semantics + history_roundtrip (the heap "
         "run of every history of Inverse() calls / wrapper constructions / flat edits represents exactly the state the value semantics "
         "computes, and Inverse() now undoes the object as it is now in both orders), and their _2d twins; "
-        "prop:c05/history_marching_cubes_conj evaluates MarchingCubesConj after an in-place edit against a fresh transform with the same matrix"
+        "prop:c05/history_marching_cubes_conj evaluates MarchingCubesConj after an in-place edit against a fresh transform with the same matrix; "
+        "scene3 / scene2 kinds (one case = a SCENE GRAPH 'X t (G|C n members)' whose members are probes, transformed probes, transformed groups: "
+        "TransformCollider round a multi-member collider - the harness' own group type G or the real NewJoinedCollider C - round transformed "
+        "colliders; modes cb / nil / first / re (the RayCollisions callback casts a secondary ray at the same scene on every collision) / sph / "
+        "bounds): the driver answers with the collider VALUE built from M3d.Tf.groupCollider and transformCollider, justified by "
+        "M3d.C05.transform_group_distrib (a transform round a group = the group of the transformed members: collisions, count, first collision, "
+        "sphere - any transform, any members; with nested_collider every leaf of a scene answers as ONE wrapper of the join of the transforms on "
+        "its path), scene_two_level (the collisions of TransformCollider(t1, group{TransformCollider(t2, a), b}) spelled out: b is asked about "
+        "the ray pulled back through t1 alone), scene_pointer_semantics (the pointer-level program Scene.run - colliders are handed the ADDRESS "
+        "of a Ray in the store of all Ray objects, innerRay allocates, a group passes its address to each member in turn, the callback may do "
+        "anything that only allocates - leaves every existing Ray untouched and reports exactly the collisions of the value), scene_shadow_rays "
+        "(a callback casting secondary rays at a scene is such a callback) and the _2d twins; the ray modes also run Scene.run in the driver and "
+        "refuse (MODEL-NE-SPEC) unless it agrees with the value; sphin / nest.sphin: when the wrapper answers a sphere query without asking "
+        "the wrapped collider, the case is reported ('not-asked') unless every collider with the stub's bounds would have led to that answer "
+        "(the pulled-back sphere does not reach the bounds and the answer is no collision): transform_collider_sphere"
     ),
     rule=(
         "exact mode: every case is a line of small dyadic rationals; transforms are random primitives or (nested) joins of 0-4 of "
@@ -53,7 +67,20 @@ PROP = dict(
         "steps: observation 35%, in-place edit 25% (half of them aimed at a matrix), Inverse() 15%, snap 10%, query of kept wrappers 15%); "
         "kept wrappers are only queried while their object has not been edited since they were built (the library does not say what a "
         "wrapper built earlier does after such an edit); #stat histN.pattern.use-edit-use / edit-returned-inverse-then-use-source count the "
-        "histories that contain the two critical patterns (87 and 26 of 180 at seed 2), histN.step.* the step kinds"
+        "histories that contain the two critical patterns (87 and 26 of 180 at seed 2), histN.step.* the step kinds. sphere queries (sphc / nest.sphc): half of the query spheres have their centre OUTSIDE the "
+        "collider's bounding box at a distance d = 2^-3..2^2 from a face (sometimes off two faces) with radius d/2..4d - spheres that just "
+        "miss, just reach and overlap the box from outside - under enlarging, shrinking and rigid transforms (#stat sphcN.outside.<enlarging|"
+        "shrinking|same-scale>.<missing-box|reaching-box|reaching-box.mixed-units-would-miss>: the last class is where comparing a distance "
+        "measured in one space with a radius measured in the other gives the wrong answer; 39 / 36 / 61 / 48 cases at seed 1). AxisPinch: one "
+        "case in three puts the points at t = ±4^-k from the centre of the pinched range (k = 1..11 for any range, up to 120 for a range centred "
+        "at 0; bits mode: centre ± [0.5,1)·2^-e·half, e = 1..48), where the power law is singular: apply, roundtrip in both orders, bounds, "
+        "TransformSolid(pinch, box) (#stat pinch.near-centre.*). scene graphs (sceneN, 150+4 per dimension at quick): X t (group of 2-4 members: "
+        "probe 40%, transformed probe 35%, transformed group 20%, group 5%, depth <= 3, group type G or real JoinedCollider at random), at most "
+        "10 binary digits of scaling on a root-to-leaf path so every float64 operation is exact; probes report 0-2 collisions whose parameter "
+        "has a·origin + b·direction of the ray they are HANDED added (integer a, b), so a probe shown the wrong ray is visible in its "
+        "parameters; three scenes in four have a transformed member that is followed by another member (#stat sceneN.moved-member-before-"
+        "sibling.1: 142 / 149 of 154 at seed 1); the textbook scene T(5,0,0){T(1,0,0) probe, probe} in both member orders and both group types "
+        "comes first (smallest replay)"
     ),
     trusted=[
         "regenerated, not hand-written: lean/M3d/Gen/Kernels.lean (Go->Lean translator harness/hlib/go2lean, run on the current "
@@ -78,8 +105,16 @@ PROP = dict(
         "Matrix2/Matrix3 and slice elements of JoinedTransform; the result of Rotation() has no state a caller can reach and is treated as "
         "immutable; what a wrapper or an Inverse() result obtained EARLIER does after its source is edited is not specified by the property "
         "and not checked (transformedCollider keeps the live transform next to a snapshot of the inverse)",
+        "regenerated toolbox3d.AxisSqueeze.Apply/ApplyBounds = Xf.squeezeApply (the squeeze clause of Xf.apply / applyBounds) and "
+        "toolbox3d.AxisPinch.Apply/ApplyBounds = Pinch.apply / Pinch.applyBounds with powF t = math.Pow(t, Power) uninterpreted, for each of "
+        "the three axes (M3d.KernelsTie.SqueezeApply.squeeze_apply, squeeze_bounds, pinch_apply, pinch_bounds)",
         "regenerated SmartSqueeze.checkSqueezed = the model's scanRanges (M3d.KernelsTie.Squeeze.checkSqueezed_eq) under the hypothesis that "
         "every range start is below HasInf.posInf; Matrix2Transform/Matrix3Transform.ApplyBounds = matrixBounds (matrix_bounds, matrix_bounds2)",
+        "scene graphs: the store of Ray objects (M3d/Model/TransformScene.lean: a list of cells, &Ray{} = append) is a model of Go's "
+        "allocation; probes and the callback read rays but never write them (Go's convention for a *Ray argument; a wrapped collider that "
+        "writes into the ray it is handed is outside the theorem and outside the generator); JoinedCollider's own bounds gate is not modelled "
+        "(C07): the generated probe bounds contain every ray origin and sphere centre, so the gate passes; goroutine-concurrent queries are "
+        "not modelled or generated (single-threaded histories only)",
         "nested colliders: nested_collider assumes the wrapped collider reports normals whose squared length is a perfect square (unit normals) and sqrtF exact on perfect squares (true of the driver's sqrtQ and of the real square root); normals of other lengths are renormalised at every level by the code and by the model alike (faithful kinds nest.outer)",
     ],
     assumptions=[
@@ -98,13 +133,16 @@ PROP = dict(
         "2-D and 3-D, so all of the above holds for nested instances with the composite transform. Histories of one mutable transform "
         "object: on the heap model of the Go pointers Inverse() only allocates, returns the inverse of the receiver AS IT IS NOW in cells "
         "of its own, and edits reach only the object they are addressed to - after every history (2-D and 3-D), so every law above holds "
-        "at every moment of an object's life, tied by running whole histories on the real code. SmartSqueeze.Transform terminates, "
+        "at every moment of an object's life, tied by running whole histories on the real code. Scene graphs: a transform round a multi-member collider is the multi-member collider of the "
+        "transformed members, and the pointer-level program (shared *Ray among members, allocation in innerRay, re-entrant secondary queries "
+        "from the callback) reports exactly the collisions of the collider value, so the single-wrapper laws hold leaf by leaf in every scene. "
+        "SmartSqueeze.Transform terminates, "
         "squeezes exactly the material outside the unsqueezable ranges and acts with slope ratio / 1. The model is tied to /repo on every run by "
-        "regenerated definitions (63 + checkSqueezed tie theorems) and exact-mode correspondence "
+        "regenerated definitions (63 + checkSqueezed + 4 AxisSqueeze/AxisPinch tie theorems) and exact-mode correspondence "
         "with the real Go code on all these methods in 2D and 3D and by bit-exact Float runs on arbitrary doubles (rotations, pinch powers)."
     ),
     level_note=(
-        "Proved about lean/M3d/Model/{Transform,Transform2,TransformNest,SmartSqueeze,TransformHist,TransformHist2}.lean; exactness over fields, not floats (rounding error is not bounded; "
+        "Proved about lean/M3d/Model/{Transform,Transform2,TransformNest,SmartSqueeze,TransformHist,TransformHist2,TransformScene,TransformScene2}.lean; exactness over fields, not floats (rounding error is not bounded; "
         "the bits mode shows the model performs the same float operations). cos/sin/pow are inputs under algebraic hypotheses. Meshing itself is C01/C02."
     ),
 )
